@@ -527,18 +527,39 @@ impl Property for C07 {
             // A: above the outer filter's level (TRACE, or INFO when the outer filter is ERROR)
             let a_cs = if r1 == 1 { 3 + tg } else { 6 + tg };
             let b_cs = tg; // ERROR: accepted by everybody
-            let mut ops = vec![
-                Op::Open { t: 0, cs: a_cs, slot: 0 },
-                Op::Enter { t: 0, slot: 0 },
-                Op::Open { t: 0, cs: b_cs, slot: 1 },
-                Op::Enter { t: 0, slot: 1 },
-                Op::Record { t: 0, slot: 1 },
-                Op::Event { t: 0, cs: b_cs },
-                Op::Exit { t: 0 },
-                Op::Close { t: 0, slot: 1 },
-                Op::Exit { t: 0 },
-                Op::Close { t: 0, slot: 0 },
-            ];
+            let mut ops = if inner_first == sibling {
+                vec![
+                    Op::Open { t: 0, cs: a_cs, slot: 0 },
+                    Op::Enter { t: 0, slot: 0 },
+                    Op::Open { t: 0, cs: b_cs, slot: 1 },
+                    Op::Enter { t: 0, slot: 1 },
+                    Op::Record { t: 0, slot: 1 },
+                    Op::Event { t: 0, cs: b_cs },
+                    Op::Exit { t: 0 },
+                    Op::Close { t: 0, slot: 1 },
+                    Op::Exit { t: 0 },
+                    Op::Close { t: 0, slot: 0 },
+                ]
+            } else {
+                // second shape: the rejected span is NOT an ancestor of the accepted one - it was
+                // created first and is entered on top of it; the filtered leaf's current span is
+                // then the accepted span below it on the thread's stack
+                vec![
+                    Op::Open { t: 0, cs: a_cs, slot: 0 },
+                    Op::Open { t: 0, cs: b_cs, slot: 1 },
+                    Op::Enter { t: 0, slot: 1 },
+                    Op::Enter { t: 0, slot: 0 },
+                    Op::Event { t: 0, cs: b_cs },
+                    Op::Open { t: 0, cs: b_cs, slot: 2 },
+                    Op::Record { t: 0, slot: 1 },
+                    Op::Exit { t: 0 },
+                    Op::Event { t: 0, cs: b_cs },
+                    Op::Exit { t: 0 },
+                    Op::Close { t: 0, slot: 2 },
+                    Op::Close { t: 0, slot: 0 },
+                    Op::Close { t: 0, slot: 1 },
+                ]
+            };
             for (k, e) in extra.into_iter().enumerate() {
                 let at = (k * 3 + 2).min(ops.len());
                 ops.insert(at, e);
